@@ -12,6 +12,7 @@ import (
 	"strconv"
 	"sync"
 	"syscall"
+	"time"
 	"unsafe"
 
 	"github.com/jrhy/mast/persist/file"
@@ -38,6 +39,24 @@ type C17Case struct {
 	Payload string   `json:"payload"` // base64
 	Cuts    []C17Cut `json:"cuts"`    // successive interrupted attempts, each in a fresh process
 }
+
+// storeCtx picks the kind of context a Store call runs under from the case's numbers: the background context, a cancellable
+// one that nobody cancels, or one with a deadline an hour away. None of them ever ends during a case.
+func storeCtx(k int) context.Context {
+	switch k % 3 {
+	case 1:
+		ctx, cancel := context.WithCancel(context.Background())
+		keepCancels = append(keepCancels, cancel)
+		return ctx
+	case 2:
+		ctx, cancel := context.WithTimeout(context.Background(), time.Hour)
+		keepCancels = append(keepCancels, cancel)
+		return ctx
+	}
+	return context.Background()
+}
+
+var keepCancels []context.CancelFunc
 
 // c17Child is the body of the re-executed child process.
 func c17Child() {
@@ -95,7 +114,7 @@ func c17Child() {
 		}
 	}
 	p := file.NewPersistForPath(dir)
-	if err := p.Store(context.Background(), name, payload); err != nil {
+	if err := p.Store(storeCtx(n+len(payload)), name, payload); err != nil {
 		os.Exit(3) // the write reported failure
 	}
 	os.Exit(0) // the write reported success
@@ -278,7 +297,7 @@ func runC17(c C17Case, o *run.Obs) error {
 	}
 	defer os.Remove(payloadFile)
 	name := ref.NodeName(payload)
-	ctx := context.Background()
+	ctx := storeCtx(len(payload) + len(c.Cuts))
 	check := func(when string, mustBeComplete bool) error {
 		p := file.NewPersistForPath(dir) // restart: a fresh store on the directory
 		b, err := p.Load(ctx, name)
